@@ -430,8 +430,9 @@ func (r *Rule) transformArg(arg types.MatchData, argIdx int, cache map[transform
 		return arg, errs
 	default:
 		// NOTE: See comment on transformationKey struct to understand this hacky code
-		argKey := arg.Key()
-		argKeyPtr := unsafe.StringData(argKey)
+		input := arg.Value()
+		inputPtr := unsafe.StringData(input)
+		inputLen := len(input)
 
 		// Search from longest prefix (full chain) backwards for a cache hit.
 		// Best case: full chain cached → single map lookup, done.
@@ -442,9 +443,8 @@ func (r *Rule) transformArg(arg types.MatchData, argIdx int, cache map[transform
 
 		for i := len(r.transformationPrefixIDs) - 1; i >= 0; i-- {
 			key := transformationKey{
-				argKey:            argKeyPtr,
-				argIndex:          argIdx,
-				argVariable:       arg.Variable(),
+				argValue:          inputPtr,
+				argValueLen:       inputLen,
 				transformationsID: r.transformationPrefixIDs[i],
 			}
 			if cached, ok := cache[key]; ok {
@@ -470,12 +470,11 @@ func (r *Rule) transformArg(arg types.MatchData, argIdx int, cache map[transform
 			}
 
 			key := transformationKey{
-				argKey:            argKeyPtr,
-				argIndex:          argIdx,
-				argVariable:       arg.Variable(),
+				argValue:          inputPtr,
+				argValueLen:       inputLen,
 				transformationsID: r.transformationPrefixIDs[i],
 			}
-			cache[key] = transformationValue{arg: value, errs: errs}
+			cache[key] = transformationValue{input: input, arg: value, errs: errs}
 		}
 
 		return value, errs
